@@ -92,7 +92,7 @@
 (* e^x >= e^4096 > 2^5909 for x >= 4096): every comparison with a cell end *)
 (* and every sign is unchanged.                                            *)
 (***************************************************************************)
-EXTENDS Accuracy
+EXTENDS Accuracy, FiniteSets
 
 ComplexFns == {"absolute", "acos", "acosh", "asin", "asinh", "atan", "atanh", "exp", "log", "log2", "log10",
                "log1p", "sqrt", "square"}
@@ -238,4 +238,197 @@ TrueVal(fn, x, y, sx, sy, W) ==
     [] fn = "acos" -> TAcos(x, y, sy, W)
     [] fn = "asinh" -> TAsinh(x, y, sx, W)
     [] fn = "acosh" -> TAcosh(x, y, sy, W)
+
+(*************************** poles, cuts, exact zeros **********************)
+\* finite inputs at which a component of the true value is infinite
+Pole(fn, x, y) ==
+  CASE fn \in {"log", "log2", "log10"} -> DIsZero(x) /\ DIsZero(y)
+    [] fn = "log1p" -> DEq(x, DNeg(DOne)) /\ DIsZero(y)
+    [] fn = "atanh" -> DEq(DAbs(x), DOne) /\ DIsZero(y)
+    [] fn = "atan" -> DIsZero(x) /\ DEq(DAbs(y), DOne)
+    [] OTHER -> FALSE
+\* finite inputs on a branch cut: "x" / "y" names the zero component whose sign selects the side, "" off the cuts
+OnCut(fn, x, y) ==
+  CASE fn \in {"sqrt", "log", "log2", "log10"} -> IF DIsZero(y) /\ DSign(x) < 0 THEN "y" ELSE ""
+    [] fn = "log1p" -> IF DIsZero(y) /\ DLt(x, DNeg(DOne)) THEN "y" ELSE ""
+    [] fn \in {"asin", "acos", "atanh"} -> IF DIsZero(y) /\ DLt(DOne, DAbs(x)) THEN "y" ELSE ""
+    [] fn = "acosh" -> IF DIsZero(y) /\ DLt(x, DOne) THEN "y" ELSE ""
+    [] fn \in {"asinh", "atan"} -> IF DIsZero(x) /\ DLt(DOne, DAbs(y)) THEN "x" ELSE ""
+    [] OTHER -> ""
+\* the same at infinity: an infinite component on the axis of a cut, the other component a zero
+OnCutInf(fn, xi, yi, x0, y0, sx) ==
+  CASE fn \in {"sqrt", "log", "log2", "log10", "log1p", "acosh"} -> IF y0 /\ xi /\ sx = 1 THEN "y" ELSE ""
+    [] fn \in {"asin", "acos", "atanh"} -> IF y0 /\ xi THEN "y" ELSE ""
+    [] fn \in {"asinh", "atan"} -> IF x0 /\ yi THEN "x" ELSE ""
+    [] OTHER -> ""
+\* demanded sign bit of a component of the true value that is EXACTLY zero (2: either sign)
+ExpZero(fn, c, sx, sy) ==
+  IF c = "im" THEN
+    (CASE fn = "square" -> (sx + sy) % 2
+       [] fn = "acos" -> 1 - sy
+       [] OTHER -> sy)
+  ELSE (IF fn \in {"asin", "asinh", "atan", "atanh"} THEN sx ELSE 2)
+
+(*************************** expected components off the enclosures ********)
+\* descriptor of a component that is not judged through TrueVal:
+\*   [k |-> "free"]                       not judged
+\*   [k |-> "inf", s |-> 0 / 1 / 2]       that infinity (2: either)
+\*   [k |-> "zero", s |-> 0 / 1 / 2]      a zero (2: either sign)
+\*   [k |-> "piq", s |-> 0 / 1, q |-> n]  (-1)^s n pi/4  (divided by ln 2 / ln 10 for log2 / log10)
+Free == [k |-> "free"]
+InfD(s) == [k |-> "inf", s |-> s]
+ZeroD(s) == [k |-> "zero", s |-> s]
+PiQ(s, q) == [k |-> "piq", s |-> s, q |-> q]
+SgnOfI(X) == IF IIsPos(X) THEN 0 ELSE IF IIsNeg(X) THEN 1 ELSE 2
+
+PoleTable(fn, sx, sy) ==
+  CASE fn \in {"log", "log2", "log10", "log1p"} -> CV(InfD(1), Free)
+    [] fn = "atanh" -> CV(InfD(sx), Free)
+    [] fn = "atan" -> CV(Free, InfD(sy))
+
+\* infinite inputs (C99 Annex G where it is unambiguous = the value is the limit along every path with
+\* the given finite component; everything else is Free).  xi, yi: the component is infinite; x0, y0: it
+\* is a zero; vy: the value of y when finite
+ArgInf(xi, yi, sx, sy) ==                     \* atan2(y, x) with an infinite component
+  IF yi /\ ~xi THEN PiQ(sy, 2)
+  ELSE IF yi THEN PiQ(sy, IF sx = 0 THEN 1 ELSE 3)
+  ELSE IF sx = 0 THEN ZeroD(sy) ELSE PiQ(sy, 4)
+InfTable(fn, xi, yi, sx, sy, x0, y0, vy) ==
+  CASE fn = "square" ->
+         IF xi /\ yi THEN CV(Free, InfD((sx + sy) % 2))
+         ELSE IF xi THEN CV(InfD(0), IF y0 THEN Free ELSE InfD((sx + sy) % 2))
+         ELSE CV(InfD(1), IF x0 THEN Free ELSE InfD((sx + sy) % 2))
+    [] fn = "sqrt" ->
+         IF yi THEN CV(InfD(0), InfD(sy))
+         ELSE IF sx = 0 THEN CV(InfD(0), ZeroD(sy)) ELSE CV(ZeroD(2), InfD(sy))
+    [] fn = "exp" ->
+         IF yi THEN CV(Free, Free)
+         ELSE IF sx = 1 THEN CV(ZeroD(2), ZeroD(2))
+         ELSE IF y0 THEN CV(InfD(0), ZeroD(sy))
+         ELSE CV(InfD(SgnOfI(CosP(vy, 64))), InfD(SgnOfI(SinP(vy, 64))))
+    [] fn \in {"log", "log2", "log10", "log1p"} -> CV(InfD(0), ArgInf(xi, yi, sx, sy))
+    [] fn = "asin" ->
+         CV(IF xi /\ yi THEN PiQ(sx, 1) ELSE IF xi THEN PiQ(sx, 2) ELSE ZeroD(sx), InfD(sy))
+    [] fn = "asinh" ->
+         CV(InfD(sx), IF xi /\ yi THEN PiQ(sy, 1) ELSE IF yi THEN PiQ(sy, 2) ELSE ZeroD(sy))
+    [] fn = "acos" ->
+         LET a == ArgInf(xi, yi, sx, 0)
+         IN  CV(IF a.k = "zero" THEN ZeroD(2) ELSE a, InfD(1 - sy))
+    [] fn = "acosh" -> CV(InfD(0), ArgInf(xi, yi, sx, sy))
+    [] fn = "atanh" -> CV(ZeroD(sx), PiQ(sy, 2))
+    [] fn = "atan" -> CV(PiQ(sx, 2), ZeroD(sy))
+
+ConstI(fn, d, W) ==
+  LET v == INegIf(d.s, PiQuarter(d.q, W))
+  IN  IF fn \in {"log2", "log10"} THEN IDiv(v, LogBase(fn, W), W) ELSE v
+
+(*************************** verdict of one component **********************)
+Suffix(S, c) == {n \o "_" \o c : n \in S}
+NoV == [fails |-> {}, notes |-> {}]
+FailV(S) == [fails |-> S, notes |-> {}]
+
+\* w against a true value given by Pos (finite, not exactly zero); sg: 0 / 1 / 2 = certainly positive /
+\* certainly negative / sign not established
+UlpComp(Pos(_, _), f, w, sg, T) ==
+  LET ws == IF sg # 2 /\ SignBit(f, w) # sg THEN {"wrong_sign"} ELSE {}
+      si == IF IsInf(f, w) /\ WithinNBy(Pos, f, w, 0) = "bad" THEN {"spurious_inf"} ELSE {}
+      u == UlpVerdictBy(Pos, f, w, UlpBoundC, T)
+  IN  [fails |-> ws \cup si \cup u.fails, notes |-> u.notes]
+ZeroComp(f, w, s) ==
+  IF ~IsZero(f, w) THEN FailV({"zero_expected"})
+  ELSE IF s = 2 THEN [fails |-> {}, notes |-> {"zero_sign_free"}]
+  ELSE IF SignBit(f, w) # s THEN FailV({"zero_sign"}) ELSE NoV
+\* a component given by a descriptor
+DescComp(fn, f, d, w, T) ==
+  IF d.k = "free" THEN [fails |-> {}, notes |-> {"not_judged"}]
+  ELSE IF IsNaN(f, w) THEN FailV({"spurious_nan"})
+  ELSE IF d.k = "inf" THEN
+    (IF IsInf(f, w) /\ (d.s = 2 \/ SignBit(f, w) = d.s) THEN NoV ELSE FailV({"inf_expected"}))
+  ELSE IF d.k = "zero" THEN ZeroComp(f, w, d.s)
+  ELSE LET W0 == Width0(f)
+           c1 == ConstI(fn, d, W0)
+           c2 == ConstI(fn, d, 2 * W0)
+           Pos(a, W) == DPos(a, IF W = W0 THEN c1 ELSE c2)
+       IN  UlpComp(Pos, f, w, d.s, T)
+\* a component given by its enclosures at the two widths (t1: Width0, t2: twice that)
+IvComp(f, t1, t2, w, zs, T) ==
+  IF IsNaN(f, w) THEN FailV({"spurious_nan"})
+  ELSE IF IIsZeroPt(t1) THEN ZeroComp(f, w, zs)
+  ELSE LET W0 == Width0(f)
+           Pos(a, W) == DPos(a, IF W = W0 THEN t1 ELSE t2)
+           sg == IF SgnOfI(t1) # 2 THEN SgnOfI(t1) ELSE SgnOfI(t2)
+       IN  UlpComp(Pos, f, w, sg, T)
+Tag(v, c) == [fails |-> Suffix(v.fails, c), notes |-> Suffix(v.notes, c)]
+Both(vre, vim) == Merge(Tag(vre, "re"), Tag(vim, "im"))
+
+(*************************** verdict of one event **************************)
+FiniteV(fn, f, vx, vy, sx, sy, wre, wim) ==
+  LET W0 == Width0(f)
+      t1 == TrueVal(fn, vx, vy, sx, sy, W0)
+      t2 == TrueVal(fn, vx, vy, sx, sy, 2 * W0)
+      T == TargetC(fn)
+  IN  Both(IvComp(f, t1.re, t2.re, wre, ExpZero(fn, "re", sx, sy), T),
+           IvComp(f, t1.im, t2.im, wim, ExpZero(fn, "im", sx, sy), T))
+DescV(fn, f, d, wre, wim) == Both(DescComp(fn, f, d.re, wre, TargetC(fn)), DescComp(fn, f, d.im, wim, TargetC(fn)))
+
+\* |z|: a real-valued result
+AbsV(f, x, y, w) ==
+  IF IsNaN(f, w) THEN FailV({"spurious_nan_re"})
+  ELSE IF IsInf(f, x) \/ IsInf(f, y) THEN Tag(DescComp("absolute", f, InfD(0), w, 3), "re")
+  ELSE LET vx == Val(f, x)
+           vy == Val(f, y)
+           s == DAdd(DMul(vx, vx), DMul(vy, vy))
+           Pos(a, W) == IF DSign(a) < 0 THEN "lt" ELSE PosExact(DMul(a, a), s)
+       IN  IF DIsZero(s) THEN Tag(ZeroComp(f, w, 2), "re")
+           ELSE Tag(UlpComp(Pos, f, w, 0, TargetC("absolute")), "re")
+
+\* both sides of a cut fail: report the reading with fewer failing clauses (the side the result is closer to)
+Fewer(v1, v2) == IF Cardinality(v2.fails) < Cardinality(v1.fails) THEN v2 ELSE v1
+
+VerdictC(fn, f, x, y, wre, wim) ==
+  IF IsNaN(f, x) \/ IsNaN(f, y) THEN [fails |-> {}, notes |-> {"nan_input"}]
+  ELSE IF fn = "absolute" THEN AbsV(f, x, y, wre)
+  ELSE LET sx == SignBit(f, x)
+           sy == SignBit(f, y)
+           xi == IsInf(f, x)
+           yi == IsInf(f, y)
+           x0 == IsZero(f, x)
+           y0 == IsZero(f, y)
+           InfV(ax, ay) == DescV(fn, f, InfTable(fn, xi, yi, ax, ay, x0, y0, IF yi THEN DZero ELSE Val(f, y)), wre, wim)
+       IN  IF xi \/ yi THEN
+             LET cut == OnCutInf(fn, xi, yi, x0, y0, sx)
+                 v1 == InfV(sx, sy)
+             IN  IF cut = "" \/ v1.fails = {} THEN v1
+                 ELSE LET v2 == IF cut = "y" THEN InfV(sx, 1 - sy) ELSE InfV(1 - sx, sy)
+                      IN  IF v2.fails = {} THEN [fails |-> {}, notes |-> v2.notes \cup {"cut_other_side"}]
+                          ELSE Fewer(v1, v2)
+           ELSE LET vx == Val(f, x)
+                    vy == Val(f, y)
+                    cut == OnCut(fn, vx, vy)
+                IN  IF Pole(fn, vx, vy) THEN DescV(fn, f, PoleTable(fn, sx, sy), wre, wim)
+                    ELSE IF cut = "" THEN FiniteV(fn, f, vx, vy, sx, sy, wre, wim)
+                    ELSE LET v1 == FiniteV(fn, f, vx, vy, sx, sy, wre, wim)
+                         IN  IF v1.fails = {} THEN v1
+                             ELSE LET v2 == IF cut = "y" THEN FiniteV(fn, f, vx, vy, sx, 1 - sy, wre, wim)
+                                            ELSE FiniteV(fn, f, vx, vy, 1 - sx, sy, wre, wim)
+                                  IN  IF v2.fails = {} THEN [fails |-> {}, notes |-> v2.notes \cup {"cut_other_side"}]
+                                      ELSE Fewer(v1, v2)
+
+(*************************** the target rate *******************************)
+\* Accuracy!TailBound for a general p = 1/pinv (same proof: b(k)/(1 - rho) with rho = n p/((k+1)(1-p)))
+TailBoundP(n, k, pinv) ==
+  LET np == IDivInt(IPt(n), pinv, RW)
+      rho == IDiv(IPt(n), IMulInt(IInt(pinv - 1), k + 1, RW), RW)
+      valid == DLt(rho[2], DOne)
+      ex == ExpI(INeg(IDivInt(ISub(IPt(n), IInt(k), RW), pinv, RW)), RW)
+      bk == IMul(PowOverFact(np, k, 1, IOne), ex, RW)
+  IN  IF ~valid THEN <<FALSE, DOne>> ELSE <<TRUE, IDiv(bk, ISub(IOne, rho, RW), RW)[2]>>
+RECURSIVE RateThresholdPFrom(_, _, _)
+RateThresholdPFrom(n, k, pinv) ==
+  LET tb == TailBoundP(n, k + 1, pinv)
+  IN  IF tb[1] /\ DLe(DMul(tb[2], DFromInt(100)), DOne) THEN k ELSE RateThresholdPFrom(n, k + 1, pinv)
+RatePInv == 1000
+RateThresholdC(n) == RateThresholdPFrom(n, 0, RatePInv)
+RateFailsC(nNat, kNat) ==
+  IF NCmp(kNat, NFromInt(RateThresholdC(DFromNat(nNat)))) > 0 THEN {"rateT"} ELSE {}
 =============================================================================
